@@ -12,7 +12,7 @@ CHECKS = {
  "C04": ("exploration", "3 C04", "full-stack deterministic simulation: seeded return orders over invocation sequences, step-stamped barrier and fan-out oracle",
          "seeded search over subscription sets, return orders and stalls across 2-6 consecutive invocations; the oracle compares every INVOKE event with the runtime's view and the completion step with the last return to next; sampled, not exhaustive"),
 
- "C05": ("exploration", "3 C05", "full-stack deterministic simulation on the fake clock: stall-phase matrix, response-vs-expiry offset sweep, lock-site holds; bound/teardown/recovery oracle",
+ "C05": ("exploration", "3 C05", "full-stack deterministic simulation on the fake clock: stall-phase matrix (also twice in a row), response / re-poll / end-of-init offset sweep against the expiry, lock-site holds spanning the emulator's timers; bound/teardown/recovery oracle",
          "seeded search over the phase in which a party stalls past the timeout, exact nanosecond offsets of the response and the re-polls around expiry, and goroutines held at reset/failure-path lock sites; decides outcome exclusivity, the answer bound on the fake clock, teardown-before-answer and recovery on fresh processes; sampled"),
  "C06": ("fault_enumeration", "3 C06 and appendix B", "full-stack deterministic simulation: enumerated crash-point x exit-kind x extension matrix, seeded schedules per cell, failure-table oracle",
          "every cell of the (party x protocol point x exit kind x 0-2 extensions) matrix is executed under many seeded schedules; the oracle is the failure table derived from the property statement (status, body provenance, first fault, teardown, recovery); cells enumerated completely, schedules sampled"),
@@ -22,9 +22,9 @@ CHECKS = {
          "seeded search over payload classes and sizes up to the limit, client contexts and histories in which earlier invocations succeeded, returned error bodies, timed out, crashed or were oversized; every delivery and every outcome is compared byte for byte, ids must be fresh, ARN/context/deadline exact; sampled"),
  "C14": ("exploration", "3 C14", "full-stack deterministic simulation: sizes around 6 MiB+100 at every position of an invocation sequence, byte and status oracle",
          "response and event sizes in a window around the limit (and 0, 1, limit/2) at every position of 2-6 invocation sequences; decides exactness of the limit in both directions, the 413/ResponseSizeTooLarge pair and survival without reset; sampled positions and mixes"),
- "C10": ("exploration", "3 C10", "full-stack deterministic simulation: extra callers injected at six phases of an in-flight invocation including lock-site holds; interval and outcome oracle",
+ "C10": ("exploration", "3 C10", "full-stack deterministic simulation: extra callers injected at seven phases of an in-flight invocation including lock-site holds and the tail of its reset; interval and outcome oracle",
          "seeded search over the arrival of 1-2 extra callers during init, runtime work, extension tail, timeout reset, failure reset and inside lock windows of the first caller's own path; decides pairwise disjointness of in-flight intervals, immediate 4xx refusal, unchanged outcomes of the planned invocations and that the emulator survives; sampled"),
- "C02": ("exploration", "3 C02", "full-stack deterministic simulation: adversarial submissions over invocation histories and zombie requests held at lock sites across resets; reference-register oracle",
+ "C02": ("exploration", "3 C02", "full-stack deterministic simulation: adversarial submissions over invocation histories, zombie requests held at lock sites across resets, and the platform's own delayed failure report; reference-register oracle",
          "seeded search over histories (ok/error/timeout/exit) with stale, unknown, empty and duplicate submissions, and over zombie requests of a dying runtime held at 10 lock sites of validator, handlers, state machine and interop server while reset, reservation, dispatch and response of later invocations proceed; decides accept-iff-in-flight-once, bodies delivered to callers, and that the legitimate runtime is never refused; sampled; two zombie-request defects are recorded as known findings"),
  "C07": ("exploration", "3 C07", "full-stack deterministic swarm simulation: random (mis)behaving party scripts over several faulty generations, lock-grant reordering and inventory-drawn holds; liveness/body/recovery oracle",
          "seeded swarm over scripts drawn from the full Runtime/Extensions API alphabet including misuse, stalls, exits, crashes while parked and truncated bodies, over 2-5 faulty generations followed by healthy ones, with 25-75% lock-grant reordering and goroutine holds at sites drawn from the tree's own lock-site inventory; decides that the emulator neither crashes nor wedges, that every invocation is answered within the bound with an admissible body, and that service recovers; sampled"),
